@@ -105,7 +105,7 @@ CHECKS["C05"] = {
                        "ZZ_C05_Establish:C05.est.done", "ZZ_C05_Reports:C05.reports.done", "ZZ_C05_Takeover:C05.takeover.done",
                        "ZZ_C05_DeleteReuseReassoc:C05.reuse2.done"]},
     "bounds": {
-        "quick": "frame check around one handler step: bystander session B (rules of all five kinds, one buffered packet, UR-SEQN 1) and acting session A on the same or the other node whose five rule ids and CP SEID are symbolic and may equal B's; steps: Modification with one Create/Update/Remove/Query IE of any kind and symbolic id, Deletion followed by SEID reuse (the new session then buffers and pops a packet of its own under A's PDR id), Association Setup of either node, SEID-0 report response, Establishment, kernel buffer/usage notification, takeover followed by re-association of any of three node ids; the two nodes are on different hosts or on one host with different source ports; in the delete+reuse+re-association history the first session ends by a Deletion Request or by a SEID-0 report response",
+        "quick": "frame check around one handler step: bystander session B (rules of all five kinds, one buffered packet, UR-SEQN 1) and acting session A on the same or the other node whose five rule ids and CP SEID are symbolic and may equal B's; steps: Modification with one Create/Update/Remove/Query IE of any kind and symbolic id, Deletion followed by SEID reuse (the new session then buffers and pops a packet of its own under A's PDR id), Association Setup of either node, SEID-0 report response, Establishment, kernel buffer/usage notification, takeover (to an unused node id, to the other associated node's id or to the id the node already has; the request sent once or twice) followed by re-association of any of three node ids; the two nodes are on different hosts or on one host with different source ports; in the delete+reuse+re-association history the first session ends by a Deletion Request or by a SEID-0 report response",
         "thorough": "same (the single-step bound is already complete over ids and SEIDs)",
     },
     "outside": "more than two sessions / two nodes; multi-step histories other than takeover+re-association and delete+reuse; B and A sharing both CP SEID and peer (then 'the session the report was sent for' is not determined by the message)",
@@ -230,9 +230,10 @@ CHECKS["C16"] = {
         "quick": [{"pkg": "internal/forwarder", "entries": ["ZZ_C16_*"], "witnesses": 6, "max_paths": 300000, "budget_s": 900}],
         "thorough": [{"pkg": "internal/forwarder", "entries": ["ZZ_C16_*"], "witnesses": 12, "max_paths": 3000000, "budget_s": 3000}],
     },
-    "covers": {"all": ["ZZ_C16_Templates:C16.translated", "ZZ_C16_Templates:C16.rejected", "ZZ_C16_NearMiss:C16.nearmiss.done", "ZZ_C16_Bytes:C16.bytes.done"]},
+    "covers": {"all": ["ZZ_C16_Templates:C16.translated", "ZZ_C16_Templates:C16.rejected", "ZZ_C16_NearMiss:C16.nearmiss.done", "ZZ_C16_Bytes:C16.bytes.done",
+                       "ZZ_C16_ViaPDI:C16.pdi.done", "ZZ_C16_Tokens:C16.tokens.done", "ZZ_C16_Tokens:C16.tokens.cut", "ZZ_C16_Tokens:C16.tokens.missing"]},
     "bounds": {
-        "quick": "24 rule templates (keywords fixed, every decimal digit symbolic): both directions, 'ip' or 1-3 protocol digits, addresses any/assigned/host/prefix with 1-3 digits per octet and 1-2 prefix digits, port lists of 0-2 items with 1-5 digits each, single/multiple blanks and tabs, each for uplink and downlink; near-miss keywords of 1-4 symbolic printable bytes at each of 4 keyword positions; arbitrary ASCII strings of <= 6 bytes",
+        "quick": "24 rule templates (keywords fixed, every decimal digit symbolic): both directions, 'ip' or 1-3 protocol digits, addresses any/assigned/host/prefix with 1-3 digits per octet and 1-2 prefix digits, port lists of 0-2 items with 1-5 digits each, single/multiple blanks and tabs, each for uplink and downlink; near-miss keywords of 1-4 symbolic printable bytes at each of 4 keyword positions; arbitrary ASCII strings of <= 6 bytes; token-level damage (5 templates that between them hold every kind of word: the text cut after k words for every k, or any one word missing) - rejected unless only a port list is gone, never a fault; the rule through newPdi with the SDF Filter IE before or after the Source Interface IE, for Access and Core",
         "thorough": "plus all pairs of digit counts for two octets and the prefix length, two 8-item port lists, arbitrary strings of <= 8 bytes",
     },
     "outside": "IPv6 addresses, digit-count combinations not listed, non-ASCII bytes, free strings longer than 8 bytes; 'deny' rules (the driver supports permit only)",
@@ -282,9 +283,10 @@ CHECKS["C10"] = {
                      {"pkg": "internal/forwarder", "entries": ["ZZ_C10_*"], "witnesses": 6, "max_paths": 4000000, "budget_s": 3000}],
     },
     "covers": {"all": ["ZZ_C10_AfterTakeover:C10.takeover.done", "ZZ_C10_Notify:C10.notify.done", "ZZ_C10_Notify:C10.notify.unknown-session", "ZZ_C10_Notify:C10.notify.unknown-urr-dropped", "ZZ_C10_ModRsp:C10.rsp.done",
+                       "ZZ_C10_AfterHistory:C10.history.done", "ZZ_C10_AfterHistory:C10.history.recreated", "ZZ_C10_AfterHistory:C10.history.urr-gone",
                        "ZZ_C10_Multicast:C10.mcast.done", "ZZ_C10_Results:C10.result.done", "ZZ_C10_Multi:C10.multi.done", "ZZ_C10_Multi:C10.multi.split"]},
-    "bounds": {"quick": "data-plane side: REPORT multicast with 1..2 reports over two distinct symbolic SEIDs, symbolic URR ids and six 64-bit counters each, every one of the 18 single-cause trigger words, two concrete instant pairs; query/update/remove results with a symbolic trigger word; multi-URR (periodic) query of 1, 3, limit, limit+1 and 2*limit+2 (SEID, URR) pairs over three sessions (limit = gtp5gnl.MaxNetlinkUsageReportNum, so sessions straddle netlink request boundaries), every pair answered once with counters that encode the pair and one solver-chosen pair with symbolic counters. PFCP side: a session of either peer with two URRs whose DURAT/VOLUM/EVENT/MNOP settings are symbolic Booleans, batches of 1..2 reports naming arbitrary (known or unknown) URR ids with a symbolic 22-bit trigger word and symbolic counters, delivered for an arbitrary SEID; query / removal / deletion results in the Modification / Deletion response; takeover: 0..2 reports, a Modification from node B naming node B, one more report - which must go to B",
-               "thorough": "batches of up to 3 reports"},
+    "bounds": {"quick": "data-plane side: REPORT multicast with 1..2 reports over two distinct symbolic SEIDs, symbolic URR ids and six 64-bit counters each, every one of the 18 single-cause trigger words, two concrete instant pairs; query/update/remove results with a symbolic trigger word; multi-URR (periodic) query of 1, 3, limit, limit+1 and 2*limit+2 (SEID, URR) pairs over three sessions (limit = gtp5gnl.MaxNetlinkUsageReportNum, so sessions straddle netlink request boundaries), every pair answered once with counters that encode the pair and one solver-chosen pair with symbolic counters. PFCP side: a session of either peer with two URRs whose DURAT/VOLUM/EVENT/MNOP settings are symbolic Booleans, batches of 1..2 reports naming arbitrary (known or unknown) URR ids with a symbolic 22-bit trigger word and symbolic counters, delivered for an arbitrary SEID; query / removal / deletion results in the Modification / Deletion response; takeover: 0..2 reports, a Modification from node B naming node B, one more report - which must go to B; after a history of 3 requests on one URR (query, update, remove, create again, remove its PDR; each query/update/removal answered by the data plane with 0 or 1 report) two reports for the URR, if it exists then, are both delivered",
+               "thorough": "batches of up to 3 reports; histories of 4 requests"},
     "outside": "symbolic instants (the NTP conversion divides by 10^9; two concrete instants incl. the last second of NTP era 0); more than 3 reports per batch",
     "assumptions": PFCP_ASSUME + FWD_ASSUME,
 }
@@ -322,18 +324,21 @@ CHECKS["C20"] = {
 }
 
 CHECKS["C07"] = {
-    "dep_overlays": NL_OV, "extra_pkgs": ["internal/forwarder", "internal/forwarder/perio"],
+    "dep_overlays": NL_OV, "extra_pkgs": ["internal/forwarder", "internal/forwarder/perio"], "models": FWD_MODELS,
     "jobs": {
-        "quick": [{"pkg": "internal/pfcp", "entries": ["ZZ_C07_*"], "witnesses": 4, "max_paths": 400000, "budget_s": 300, "max_concretize": 1024}],
-        "thorough": [{"pkg": "internal/pfcp", "entries": ["ZZ_C07_*"], "witnesses": 8, "max_paths": 4000000, "budget_s": 3000, "max_concretize": 4096}],
+        "quick": [{"pkg": "internal/pfcp", "entries": ["ZZ_C07_*"], "witnesses": 4, "max_paths": 400000, "budget_s": 300, "max_concretize": 1024},
+                  {"pkg": "internal/forwarder", "entries": ["ZZ_C07_*"], "witnesses": 4, "max_paths": 100000, "budget_s": 300}],
+        "thorough": [{"pkg": "internal/pfcp", "entries": ["ZZ_C07_*"], "witnesses": 8, "max_paths": 4000000, "budget_s": 3000, "max_concretize": 4096},
+                     {"pkg": "internal/forwarder", "entries": ["ZZ_C07_*"], "witnesses": 8, "max_paths": 100000, "budget_s": 600}],
     },
     "covers": {"all": ["ZZ_C07_HeaderSEIDGtp5g:C07.seid.done", "ZZ_C07_HeaderSEIDEmpty:C07.seid.done", "ZZ_C07_SweepEmpty:C07.sweep.done", "ZZ_C07_SweepGtp5g:C07.sweep.done", "ZZ_C07_RawAnyEmpty:C07.raw.done", "ZZ_C07_RawAnyGtp5g:C07.raw.done",
                        "ZZ_C07_RawHandledEmpty:C07.raw.done", "ZZ_C07_RawHandledGtp5g:C07.raw.done",
-                       "ZZ_C07_MissingEmpty:C07.missing.done", "ZZ_C07_MissingGtp5g:C07.missing.done"]},
+                       "ZZ_C07_MissingEmpty:C07.missing.done", "ZZ_C07_MissingGtp5g:C07.missing.done",
+                       "ZZ_C07_FlowDescTokens:C07.flowdesc.done", "ZZ_C07_Churn:C07.churn.done"]},
     "bounds": {"quick": "(c) header SEID through the loop: Modification, Deletion and a Session Report Response to an outstanding report with an unconstrained 64-bit header SEID from either peer, both drivers. (a) envelope: after a valid prefix (association, a bystander session, a second session created and deleted; for the dispatched-type entries also a fresh server with nothing associated) ONE datagram of n fully symbolic octets from the associated or from an unknown peer goes through the real receive path (rcvCh -> go-pfcp message.Parse with its header, message and IE decoders -> transactions -> dispatcher -> handlers -> driver): every n in 0..12 with all 256 message types, and every n in 8..14 with the message type fixed to one of the six that go-upf dispatches (1, 5, 50, 52, 54, 57); afterwards a Heartbeat from the other peer must be answered with the right type and sequence number and the bystander must be intact unless the datagram is a Modification/Deletion carrying its SEID or an Association Setup. "
                         "(d) missing IEs: a complete Establishment (Node ID, CP F-SEID, Create FAR with Forwarding Parameters, Create QER/URR/BAR, Create PDR with PDI incl. SDF filter), a Modification (Update/Query/Create/Remove groups) after a complete establishment, and an Association Setup, from which the solver removes every choice of up to 2 nodes of the IE tree (top-level IEs, whole groups, children, nested groups and their children: 33 / 31 / 3 nodes), both drivers. "
-                        "(b) IE payload sweep through the real event loop (PfcpServer.main + receiver as coroutines, marshalled datagrams) after an association and a bystander session: for each of 39 leaf IE types that go-upf or the gtp5g driver decodes (Node ID, F-SEID, and the children of Create/Update PDR, PDI, FAR, Forwarding Parameters, QER, URR, BAR) one IE with a symbolic payload of every length 0..nominal+2 inside an otherwise well-formed Establishment and a following Modification, with the no-op driver and with the gtp5g driver on the simulated kernel; afterwards a Heartbeat must be answered and the bystander intact. SDF Filter: flow-description octets ASCII; FD length field <= payload length or >= 256",
-               "thorough": "(d) up to 3 removed nodes; (a) every n in 0..16 with all message types, every n in 8..18 with a dispatched type, and for n <= 14 also the same octets delivered twice (retransmission of a possibly malformed request); (b) same with the SDF Filter FD length field unconstrained (every feasible value up to the buffer capacity is a path)"},
-    "outside": "raw datagrams longer than the stated n (up to the 1500-octet maximum), and more than one raw datagram per history; several malformed IEs in one message beyond what fits in n octets; non-ASCII flow-description text; the kernel's UDP stack (datagrams enter at rcvCh, exactly as the receiver goroutine forwards them); header-SEID addressing is decided under C04 (ZZ_C04_ModifyHeader / DeleteHeader with an unconstrained 64-bit SEID)",
+                        "(b) IE payload sweep through the real event loop (PfcpServer.main + receiver as coroutines, marshalled datagrams) after an association and a bystander session: for each of 39 leaf IE types that go-upf or the gtp5g driver decodes (Node ID, F-SEID, and the children of Create/Update PDR, PDI, FAR, Forwarding Parameters, QER, URR, BAR) one IE with a symbolic payload of every length 0..nominal+2 inside an otherwise well-formed Establishment and a following Modification, with the no-op driver and with the gtp5g driver on the simulated kernel; afterwards a Heartbeat must be answered and the bystander intact. SDF Filter: flow-description octets ASCII; FD length field <= payload length or >= 256 (e) session churn: after an association, 5 well-formed requests out of {Establishment, Deletion of SEID 1/2/3, Association Setup again} in every order through the real loop with the no-op driver - each answered, establishments accepted, a Heartbeat answered afterwards. (f) flow-description text damaged at word level (cut after k words, one word missing; 5 templates with symbolic digits) in the SDF Filter of a Create PDR through the gtp5g driver on the simulated kernel",
+               "thorough": "(d) up to 3 removed nodes; (a) every n in 0..16 with all message types, every n in 8..18 with a dispatched type, and for n <= 14 also the same octets delivered twice (retransmission of a possibly malformed request); (b) same with the SDF Filter FD length field unconstrained (every feasible value up to the buffer capacity is a path); (e) 7 requests"},
+    "outside": "raw datagrams longer than the stated n (up to the 1500-octet maximum), and more than one raw datagram per history; several malformed IEs in one message beyond what fits in n octets; non-ASCII flow-description text; the kernel's UDP stack (datagrams enter at rcvCh, exactly as the receiver goroutine forwards them); header-SEID addressing is decided under C04 (ZZ_C04_ModifyHeader / DeleteHeader with an unconstrained 64-bit SEID); churn histories longer than 5 / 7 requests or with more than one peer",
     "assumptions": PFCP_ASSUME + FWD_ASSUME,
 }
